@@ -394,6 +394,47 @@ func ruleR02(c *Ctx) {
 								}
 							}
 						}
+						// return val, found: found is a flag set only where the value of the compared leaf
+						// is taken (a Search with a single exit)
+						if mname == "Search" && len(x.Results) == 2 {
+							if fv := identVar(info, ast.Unparen(x.Results[1])); fv != nil {
+								if sites, isFlag := flagSites[fv]; isFlag {
+									vv := identVar(info, ast.Unparen(x.Results[0]))
+									nEvents++
+									all := len(sites) > 0
+									quiet = true
+									for _, site := range sites {
+										lastOK = false
+										// the leaf whose value is taken in the same statement
+										var lv *types.Var
+										if as, isAs := site.(*ast.AssignStmt); isAs && len(as.Lhs) == len(as.Rhs) {
+											for i, l := range as.Lhs {
+												if vv != nil && identVar(info, l) == vv {
+													if sel, ok := ast.Unparen(as.Rhs[i]).(*ast.SelectorExpr); ok {
+														lv = identVar(info, sel.X)
+													}
+												}
+											}
+										}
+										if lv == nil {
+											all = false
+											continue
+										}
+										check("flag", site, lv)
+										if !lastOK {
+											all = false
+										}
+									}
+									quiet = false
+									key := fmt.Sprintf("%s.%s return-flag", tk.Name, mname)
+									if all {
+										c.r.ok("R02", key, c.m.pos(x.Pos()), fmt.Sprintf("returns the flag %s, which is set – together with the value of the compared leaf – only after the successful comparison (%d places)", fv.Name(), len(sites)), props...)
+									} else {
+										c.r.bad("R02", key, c.m.pos(x.Pos()), fmt.Sprintf("success without the authoritative full-key comparison: the result is the flag %s, and a place that sets it does not take the value of the compared leaf after the comparison", fv.Name()), props...)
+									}
+								}
+							}
+						}
 					case *ast.IncDecStmt:
 						if mname == "Delete" && x.Tok == token.DEC && isFieldOf(info, x.X, sizeField) {
 							check("size--", x, nil)
